@@ -3,7 +3,7 @@
 //! type-agnostic operator menu, feed the result to the validating entry points; oracle:
 //! accepted => the independent spec validator accepts, and every safe accessor stays in bounds.
 use arrow_array::{Array, ArrayRef, BooleanArray, RecordBatch, UInt32Array, make_array};
-use arrow_buffer::{Buffer, MutableBuffer};
+use arrow_buffer::{Buffer, MutableBuffer, NullBuffer};
 use arrow_data::{ArrayData, ArrayDataBuilder};
 use arrow_schema::{DataType, Field, Schema, UnionMode};
 use std::sync::Arc;
@@ -280,10 +280,14 @@ enum Entry {
     Builder,
     BuilderAlign,
     ValidateFull,
+    /// the typed constructors (`PrimitiveArray::try_new`, `GenericByteArray::try_new`, `OffsetBuffer::new`,
+    /// `GenericListArray::try_new`, `UnionArray::try_new`, `DictionaryArray::try_new`, `RunArray::try_new`, ...)
+    Typed,
 }
 
 fn construct(p: &Parts, e: Entry) -> Result<ArrayData, String> {
     match e {
+        Entry::Typed => typed(p),
         Entry::TryNew => ArrayData::try_new(p.dt.clone(), p.len, p.nulls.clone(), p.offset, p.buffers.clone(), p.children.clone()).map_err(|e| e.to_string()),
         Entry::Builder | Entry::BuilderAlign => {
             let mut b = ArrayDataBuilder::new(p.dt.clone()).len(p.len).offset(p.offset).null_bit_buffer(p.nulls.clone()).buffers(p.buffers.clone()).child_data(p.children.clone());
@@ -313,6 +317,151 @@ fn construct(p: &Parts, e: Entry) -> Result<ArrayData, String> {
             d.validate_full().map_err(|e| e.to_string())?;
             Ok(d)
         }
+    }
+}
+
+
+/// Build the array through its *typed* checked constructor from the (mutilated) raw parts.
+/// A panic inside a `new`-style constructor whose documentation lists the panic (OffsetBuffer::new,
+/// ScalarBuffer::new, BooleanBuffer::new, NullBuffer over a short bitmap) counts as a rejection.
+fn typed(p: &Parts) -> Result<ArrayData, String> {
+    use arrow_array::types::*;
+    use arrow_array::*;
+    use arrow_buffer::{BooleanBuffer, OffsetBuffer, ScalarBuffer};
+    use DataType::*;
+    let len = p.len;
+    if len > 1 << 20 {
+        return Err("precondition: typed constructors derive the length from their buffers".into());
+    }
+    let r = catch(|| -> Result<ArrayData, String> {
+        let nulls = match &p.nulls {
+            Some(b) => Some(NullBuffer::new(BooleanBuffer::new(b.clone(), 0, len))),
+            None => None,
+        };
+        let buf = |i: usize| p.buffers.get(i).cloned().ok_or_else(|| "missing buffer".to_string());
+        let child = |i: usize| p.children.get(i).map(|c| make_array(c.clone())).ok_or_else(|| "missing child".to_string());
+        if p.buffers.len() > 3 && !matches!(p.dt, Utf8View | BinaryView) {
+            return Err("typed constructors have no slot for extra buffers".into());
+        }
+        macro_rules! prim {
+            ($t:ty) => {{
+                let v = ScalarBuffer::<<$t as ArrowPrimitiveType>::Native>::new(buf(0)?, 0, len);
+                PrimitiveArray::<$t>::try_new(v, nulls).map(|a| a.with_data_type(p.dt.clone()).into_data()).map_err(|e| e.to_string())
+            }};
+        }
+        macro_rules! bytes {
+            ($t:ty, $o:ty) => {{
+                let offs = OffsetBuffer::new(ScalarBuffer::<$o>::new(buf(0)?, 0, len + 1));
+                GenericByteArray::<$t>::try_new(offs, buf(1)?, nulls).map(|a| a.into_data()).map_err(|e| e.to_string())
+            }};
+        }
+        macro_rules! list {
+            ($o:ty, $f:expr) => {{
+                let offs = OffsetBuffer::new(ScalarBuffer::<$o>::new(buf(0)?, 0, len + 1));
+                GenericListArray::<$o>::try_new($f.clone(), offs, child(0)?, nulls).map(|a| a.into_data()).map_err(|e| e.to_string())
+            }};
+        }
+        macro_rules! lview {
+            ($o:ty, $f:expr) => {{
+                let offs = ScalarBuffer::<$o>::new(buf(0)?, 0, len);
+                let sizes = ScalarBuffer::<$o>::new(buf(1)?, 0, len);
+                GenericListViewArray::<$o>::try_new($f.clone(), offs, sizes, child(0)?, nulls).map(|a| a.into_data()).map_err(|e| e.to_string())
+            }};
+        }
+        macro_rules! dict {
+            ($k:ty) => {{
+                let keys = PrimitiveArray::<$k>::try_new(ScalarBuffer::<<$k as ArrowPrimitiveType>::Native>::new(buf(0)?, 0, len), nulls).map_err(|e| e.to_string())?;
+                DictionaryArray::<$k>::try_new(keys, child(0)?).map(|a| a.into_data()).map_err(|e| e.to_string())
+            }};
+        }
+        macro_rules! ree {
+            ($r:ty) => {{
+                let re = child(0)?;
+                let re = re.as_any().downcast_ref::<PrimitiveArray<$r>>().ok_or("run ends type")?.clone();
+                let a = RunArray::<$r>::try_new(&re, child(1)?.as_ref()).map_err(|e| e.to_string())?;
+                if a.len() != len {
+                    // RunArray::try_new derives the length from the last run end
+                    return Err("precondition: length is derived".into());
+                }
+                Ok(a.into_data())
+            }};
+        }
+        if p.nulls.is_some() && matches!(p.dt, Null | Union(_, _) | RunEndEncoded(_, _)) {
+            return Err("typed constructor has no validity argument".into());
+        }
+        match &p.dt {
+            Boolean => Ok(BooleanArray::new(BooleanBuffer::new(buf(0)?, 0, len), nulls).into_data()),
+            Int8 => prim!(Int8Type),
+            Int16 => prim!(Int16Type),
+            Int32 => prim!(Int32Type),
+            Int64 => prim!(Int64Type),
+            UInt8 => prim!(UInt8Type),
+            UInt16 => prim!(UInt16Type),
+            UInt32 => prim!(UInt32Type),
+            UInt64 => prim!(UInt64Type),
+            Float16 => prim!(Float16Type),
+            Float32 => prim!(Float32Type),
+            Float64 => prim!(Float64Type),
+            Decimal128(_, _) => prim!(Decimal128Type),
+            Decimal256(_, _) => prim!(Decimal256Type),
+            Date32 => prim!(Date32Type),
+            Timestamp(arrow_schema::TimeUnit::Nanosecond, _) => prim!(TimestampNanosecondType),
+            Interval(arrow_schema::IntervalUnit::MonthDayNano) => prim!(IntervalMonthDayNanoType),
+            Utf8 => bytes!(Utf8Type, i32),
+            LargeUtf8 => bytes!(LargeUtf8Type, i64),
+            Binary => bytes!(BinaryType, i32),
+            LargeBinary => bytes!(LargeBinaryType, i64),
+            Utf8View => {
+                let views = ScalarBuffer::<u128>::new(buf(0)?, 0, len);
+                StringViewArray::try_new(views, p.buffers[1..].to_vec(), nulls).map(|a| a.into_data()).map_err(|e| e.to_string())
+            }
+            BinaryView => {
+                let views = ScalarBuffer::<u128>::new(buf(0)?, 0, len);
+                BinaryViewArray::try_new(views, p.buffers[1..].to_vec(), nulls).map(|a| a.into_data()).map_err(|e| e.to_string())
+            }
+            FixedSizeBinary(k) => FixedSizeBinaryArray::try_new_with_len(*k, buf(0)?, nulls, len).map(|a| a.into_data()).map_err(|e| e.to_string()),
+            List(f) => list!(i32, f),
+            LargeList(f) => list!(i64, f),
+            ListView(f) => lview!(i32, f),
+            LargeListView(f) => lview!(i64, f),
+            FixedSizeList(f, k) => FixedSizeListArray::try_new_with_length(f.clone(), *k, child(0)?, nulls, len).map(|a| a.into_data()).map_err(|e| e.to_string()),
+            Struct(fs) => {
+                let cols: Result<Vec<ArrayRef>, String> = (0..p.children.len()).map(child).collect();
+                StructArray::try_new_with_length(fs.clone(), cols?, nulls, len).map(|a| a.into_data()).map_err(|e| e.to_string())
+            }
+            Map(f, ordered) => {
+                let offs = OffsetBuffer::new(ScalarBuffer::<i32>::new(buf(0)?, 0, len + 1));
+                let entries = child(0)?;
+                let entries = entries.as_any().downcast_ref::<StructArray>().ok_or("entries type")?.clone();
+                MapArray::try_new(f.clone(), offs, entries, nulls, *ordered).map(|a| a.into_data()).map_err(|e| e.to_string())
+            }
+            Dictionary(k, _) => match k.as_ref() {
+                Int8 => dict!(Int8Type),
+                UInt16 => dict!(UInt16Type),
+                Int32 => dict!(Int32Type),
+                _ => Err("precondition: key type not driven".into()),
+            },
+            RunEndEncoded(r, _) => match r.data_type() {
+                Int16 => ree!(Int16Type),
+                Int32 => ree!(Int32Type),
+                Int64 => ree!(Int64Type),
+                _ => Err("run end type".into()),
+            },
+            Union(fs, mode) => {
+                let tids = ScalarBuffer::<i8>::new(buf(0)?, 0, len);
+                let offs = match mode {
+                    UnionMode::Dense => Some(ScalarBuffer::<i32>::new(buf(1)?, 0, len)),
+                    UnionMode::Sparse => None,
+                };
+                let cols: Result<Vec<ArrayRef>, String> = (0..p.children.len()).map(child).collect();
+                UnionArray::try_new(fs.clone(), tids, offs, cols?).map(|a| a.into_data()).map_err(|e| e.to_string())
+            }
+            _ => Err("precondition: type not driven through a typed constructor".into()),
+        }
+    });
+    match r {
+        Ok(x) => x,
+        Err(p) => Err(format!("panic(documented precondition of a new-style constructor): {}", p.msg)),
     }
 }
 
@@ -368,7 +517,7 @@ pub fn run(ctx: &Ctx) -> ! {
             }
         }
     }
-    let entries = [Entry::TryNew, Entry::Builder, Entry::BuilderAlign, Entry::ValidateFull];
+    let entries = [Entry::TryNew, Entry::Builder, Entry::BuilderAlign, Entry::ValidateFull, Entry::Typed];
     st.merge(par_for(ctx, "mutilations", cases.len() as u64, 8, |idx, st| {
         let (ti, col, lay) = &cases[idx as usize];
         let dt = &grid[*ti];
@@ -383,6 +532,9 @@ pub fn run(ctx: &Ctx) -> ! {
             for e in entries {
                 if matches!(m, Mut::NullCount(_)) && e == Entry::TryNew {
                     continue; // try_new computes the null count itself
+                }
+                if e == Entry::Typed && (q.offset != 0 || p.offset != 0 || matches!(m, Mut::NullCount(_) | Mut::ChildCell { .. })) {
+                    continue; // typed constructors take no offset / null count; children are typed arrays
                 }
                 if matches!(m, Mut::ChildCell { .. }) && e != Entry::ValidateFull {
                     // a malformed *child* can only be produced through unsafe code; try_new / build validate the
